@@ -244,6 +244,19 @@ template <class KT, int KIND> struct Ck {
     cnt(how == APPEND ? "op_append" : how == PREPEND ? "op_prepend" : "op_insert_pos");
   }
 
+  // update of an existing key with a value argument that is a reference to the entry's own stored value (`m.append(k, *m.find(k))`): nothing may change
+  void opUpdateAliased(Box& b, int k, int how) {
+    if constexpr (KIND == HMAP) {
+      C& c = *b.c; Model& ref = b.ref; size_t at = findKey(ref, k); if (at == npos) return;
+      setctxf("%s.%s/existing-key/value=own-entry", cname(), how == 0 ? "append" : how == 1 ? "prepend" : "insert"); hist.addf("%s(key#%d, <its own stored value>)\n", how == 0 ? "append" : how == 1 ? "prepend" : "insert", k);
+      const K& kk = KT::make(k); It it = c.find(kk); if (it == c.end()) fail(key("find"), "existing key not found");
+      long before = (*it).id;
+      if (how == 0) c.append(kk, *it); else if (how == 1) c.prepend(kk, *it); else { It pos = c.begin(); c.insert(pos, kk, *it); }
+      It it2 = c.find(kk); if (it2 == c.end() || (*it2).id != before || before != ref[at].v) fail(key("value"), "value of the entry changed from %ld to %ld by an update with its own value", before, it2 == c.end() ? -1L : (*it2).id);
+      cnt("op_update_with_own_value");
+    }
+  }
+
   // classify where in its bucket chain the item sits (for the evidence)
   const char* chainClass(C& c, Item* item) {
     bool head = c.data && item->cell >= c.data && item->cell < c.data + c.capacity; bool tail = item->nextCell == 0;
@@ -353,7 +366,8 @@ template <class KT, int KIND> static void history(Ck<KT, KIND>& ck, Rng& r, long
     fp = mix(fp, (u64)kind * 131 + (u64)k);
     bool otherTouched = false;
     switch (kind) {
-    case 0: ck.opInsert(m, CK::APPEND, 0, "", k, nextVal++); break;
+    case 0: if (KIND == HMAP && r.chance(1, 8)) { ck.opUpdateAliased(m, k, (int)r.below(3)); break; }
+            ck.opInsert(m, CK::APPEND, 0, "", k, nextVal++); break;
     case 1: if (KIND != PMAP) ck.opInsert(m, CK::PREPEND, 0, "", k, nextVal++); else ck.opInsert(m, CK::INSERT, 0, "begin", k, nextVal++); break;
     case 2: { size_t n = m.ref.n, pi; const char* pn; switch (r.below(5)) { case 0: pi = 0; pn = "begin"; break; case 1: pi = n; pn = "end"; break; case 2: pi = n ? n - 1 : 0; pn = n ? "last" : "end"; break; case 3: pi = n > 1 ? 1 : n; pn = n > 1 ? "second" : "end"; break; default: pi = r.below(n + 1); pn = pi == n ? "end" : pi == 0 ? "begin" : "middle"; break; }
         if (pi == 0 && n == 0) pn = "end"; setItem("insert_positions", pn); ck.opInsert(m, CK::INSERT, pi, pn, k, nextVal++); break; }
@@ -386,6 +400,11 @@ template <class KT, int KIND> static void history(Ck<KT, KIND>& ck, Rng& r, long
       break;
     case 10:  // HashSet bulk operations
       if constexpr (KIND == HSET) {
+        if (r.chance(1, 5)) {   // the set itself as argument: append(self) changes nothing, remove(self) empties the set
+          if (r.chance(1, 2)) { setctxf("HashSet.append(other)/arg=self"); hist.add("m.append(m)\n"); C& self = *m.c; m.c->append(self); cnt("op_bulk_append_self"); }
+          else { setctxf("HashSet.remove(other)/arg=self"); hist.add("m.remove(m)\n"); C& self = *m.c; m.c->remove(self); m.ref.clear(); removed = true; cnt("op_bulk_remove_self"); }
+          break;
+        }
         if (r.chance(1, 2)) { setctxf("HashSet.append(other)"); hist.add("m.append(other)\n"); m.c->append(*other.c); for (size_t i = 0; i < other.ref.n; ++i) if (findKey(m.ref, other.ref[i].k) == npos) m.ref.push(other.ref[i]); cnt("op_bulk_append"); }
         else { setctxf("HashSet.remove(other)"); hist.add("m.remove(other)\n"); m.c->remove(*other.c); for (size_t i = 0; i < other.ref.n; ++i) { size_t at = findKey(m.ref, other.ref[i].k); if (at != npos) m.ref.removeAt(at); } removed = true; cnt("op_bulk_remove"); }
       }
